@@ -108,7 +108,7 @@ func init() {
 	core.Register(&core.Prop{
 		ID:    "C12",
 		Level: "exploration",
-		Rule: "cases: one patch (6 patches incl. multi-change, import-adding, described) x 1-12 generated/corpus files (layouts incl. CRLF, no final newline, long lines; an unparseable file mixed in) x flag set from {--skip-import-processing, --skip-generated, -v}; " +
+		Rule: "cases: one patch (6 patches incl. multi-change, import-adding, described) x 1-12 generated/corpus files (layouts incl. CRLF, no final newline, long lines; an unparseable file mixed in) x flag set from {--skip-import-processing, --skip-generated, -v}; a fourth run passes --diff and --print-only together (either order) and must not write either; " +
 			"the same inputs are run in place, with --print-only and with --diff on separate scratch copies, every 4th case with the dry runs under strace -f, plus the library API. Monitors: (1) syscall monitor: in dry-run modes the set of mutating syscalls " +
 			"(open for write/create/truncate, write to a file descriptor other than stdout/stderr, rename, unlink, mkdir, chmod, utimensat, ...) must be empty; (2) tree digest (names, bytes, inode, mtime, ctime) identical before/after a dry run; " +
 			"(3) agreement: in-place bytes == --print-only bytes == strict application of the printed unified diff == library bytes; descriptions on stderr only and only for rewritten files. non-trivial = >=1 file of the run is rewritten; distinct = (flag set, files-per-run class, patch, layouts).",
@@ -171,6 +171,10 @@ func runC12(ctx *core.Ctx, idx int) *core.Result {
 			}
 		case 5:
 			src, layout = "package p\n\nfunc broken( {\n", "unparseable"
+		case 6:
+			if r.Intn(2) == 0 {
+				src, layout = uglify(src, 8) // byte order mark
+			}
 		}
 		if layout != "unparseable" && !gen.Parses(src) {
 			src, layout = g.File(gen.FileOpts{Plants: plants}), "gofmt-like"
@@ -248,12 +252,13 @@ func runC12(ctx *core.Ctx, idx int) *core.Result {
 	res.Ob("files-in-runs", len(names))
 	res.Ob("files-rewritten", rewritten)
 
-	dry := func(tag, flag string) (*core.CLIResult, string, bool) {
+	dry := func(tag string, dryFlags ...string) (*core.CLIResult, string, bool) {
+		flag := strings.Join(dryFlags, " ")
 		d := setup(tag)
 		defer os.RemoveAll(d)
 		tree := filepath.Join(d, "tree")
 		before := core.TreeDigest(d)
-		args := append(append([]string{"-p", "../p.patch", flag}, flags...), argNames...)
+		args := append(append(append([]string{"-p", "../p.patch"}, dryFlags...), flags...), argNames...)
 		var cr *core.CLIResult
 		if straced {
 			var evs []core.Sys
@@ -291,6 +296,18 @@ func runC12(ctx *core.Ctx, idx int) *core.Result {
 	if !ok2 || !ok3 {
 		return res
 	}
+	// both dry-run flags at once, in either order: still a dry run (nothing on disk may change)
+	both := []string{"--diff", "--print-only"}
+	if r.Intn(2) == 0 {
+		both = []string{"--print-only", "--diff"}
+	}
+	if c4, _, ok4 := dry("d", both...); !ok4 {
+		return res
+	} else if (c4.Exit == 0) != (c3.Exit == 0) && (c4.Exit == 0) != (c2.Exit == 0) {
+		res.Violate("C12/exit-status-differs-between-modes", fmt.Sprintf("[%s] %s exit %d, --print-only exit %d, --diff exit %d", flagWord, strings.Join(both, " "), c4.Exit, c2.Exit, c3.Exit), rep)
+		return res
+	}
+	res.Ob("runs-with-both-dry-run-flags", 1)
 	if (c1.Exit == 0) != (c2.Exit == 0) || (c1.Exit == 0) != (c3.Exit == 0) {
 		cls := "exit-status-differs-between-modes"
 		for _, f := range files {
